@@ -151,8 +151,31 @@ func srvreqRun(rep *vh.Reporter, kind kit.Kind, in *kit.Instance) {
 	}
 	time.Sleep(50 * time.Millisecond) // legacy: the initialized notification is processed asynchronously
 	n := 0
+	type ansShape struct {
+		name, tmpl string
+		times      int
+	}
+	var shapes []ansShape
+	for _, sh := range answerShapes {
+		shapes = append(shapes, ansShape{sh.name, sh.tmpl, 1})
+	}
+	// Repeated answers: the same large, VALID answer several times back to back, so that a later copy is still being
+	// decoded / re-encoded by the server while an earlier one has already been delivered and the asking call has
+	// returned (what a retrying or duplicating peer does). The window is a few milliseconds wide, hence several rounds.
+	for i, roots := range []int{40000, 40000, 12000, 40000, 3500, 40000, 25000, 40000} {
+		var b strings.Builder
+		b.WriteString(`{"jsonrpc":"2.0","id":%s,"result":{"roots":[`)
+		for j := 0; j < roots; j++ {
+			if j > 0 {
+				b.WriteByte(',')
+			}
+			fmt.Fprintf(&b, `{"uri":"file:///srv/data/projects/%06d/workspace","name":"workspace-%06d"}`, j, j)
+		}
+		b.WriteString(`]}}`)
+		shapes = append(shapes, ansShape{fmt.Sprintf("valid-%d-roots-x4#%d", roots, i), b.String(), 4})
+	}
 	for _, tool := range []string{"askroots", "askraw"} {
-		for _, sh := range answerShapes {
+		for _, sh := range shapes {
 			n++
 			rep.Progress(fmt.Sprintf("%s srvreq tool=%s answer=%s", kind, tool, sh.name))
 			callID := fmt.Sprintf(`"ask-%d"`, n)
@@ -175,7 +198,12 @@ func srvreqRun(rep *vh.Reporter, kind kit.Kind, in *kit.Instance) {
 			_ = json.Unmarshal([]byte(f.Data), &m)
 			id := string(m.ID)
 			hostile := strings.ReplaceAll(sh.tmpl, "%s", id)
-			c.Post(ctx, []byte(hostile), kit.PostOpts{NoWait: true})
+			for k := 0; k < sh.times; k++ {
+				c.Post(ctx, []byte(hostile), kit.PostOpts{NoWait: true})
+			}
+			if sh.times > 1 {
+				rep.Count("repeated_large_answers_"+string(kind), int64(sh.times))
+			}
 			if sh.name == "truncated" && kind == kit.Stdio {
 				// a line is a line on stdio; nothing more to do
 			}
